@@ -316,6 +316,7 @@ def run(ctx):
         ok, why, line = add_or_merge(F, fn_)
         ctx.ob('R15.5', 'merge:%s' % fn_['name'], ok, ('%s merges the state of a suppression that is already known' % fn_['name']) if ok else
                ('%s: %s - with several jobs the unmatched-suppression report depends on which worker finishes first' % (fn_['name'], why)), '%s:%s' % (fn_['file'], line or fn_['line']))
+    r15_6(ctx)
     ctx.rule('R15.4', 'internal messages (addon summaries, checker log) pass the executors\' gate unfiltered')
     internal_passthrough(ctx, 'R15.4')
 
@@ -353,3 +354,43 @@ def internal_passthrough(ctx, rule):
            ('Executor::hasToLog can return a filtered verdict for a Severity::internal message (return at line(s) %s reachable with severity == internal): identical '
             'ctuinfo summaries of different files are dropped as duplicates with -j2 and more, so whole-program addon analysis sees fewer summaries than with -j1'
             % bad) if tested else 'Executor::hasToLog no longer tests for Severity::internal', '%s:%d' % (h['file'], h['line']))
+
+
+def r15_6(ctx):
+    """R15.6  one notion of "the same finding": a finding passes up to three duplicate filters - CppCheckLogger::reportErr (per file), Executor::hasToLog (messages of
+    workers, only with several jobs) and StdLogger::reportErr (whole run).  A single job uses the first and third, several jobs all three.  The three filters must key
+    on the same rendering of the message (ErrorMessage::toString with the same Settings members), otherwise two findings that are distinct for one job are duplicates
+    for several jobs or vice versa."""
+    F = ctx.facts
+    ctx.rule('R15.6', 'the duplicate filters of the logger, the executors and the final logger key on the same rendering')
+    sites = {}
+    for name in ('CppCheck::CppCheckLogger::reportErr', 'Executor::hasToLog', 'StdLogger::reportErr'):
+        cands = [f for f in F.find(name) if F.body(f) is not None and any(c['f'].startswith('ErrorMessage::toString(') for c in f['calls'])]
+        if len(cands) != 1:
+            raise AnalysisBroken('%s: %d definitions that render the message' % (name, len(cands)))
+        f = cands[0]
+        body = F.body(f)['body']
+        inits = {v['di']: v['init'] for v in walk(body) if v.get('k') == 'VarDecl' and v.get('init') is not None}
+        for x in walk(body):
+            if x.get('k') == 'CXXMemberCallExpr' and x.get('fn') == 'ErrorMessage::toString':
+                sig = []
+                for a in call_args(x):
+                    flds = sorted({y['n'] for y in walk(a) if y.get('k') == 'MemberExpr' and (y.get('n') or '').startswith('Settings::')})
+                    if not flds:
+                        for y in walk(a):
+                            if y.get('k') == 'DeclRefExpr' and y.get('di') in inits:
+                                flds = sorted({z['n'] for z in walk(inits[y['di']]) if z.get('k') == 'MemberExpr' and (z.get('n') or '').startswith('Settings::')})
+                    if flds:
+                        sig.append('+'.join(flds))
+                    else:
+                        a0 = strip_all(a)
+                        sig.append('literal:%r' % a0.get('v') if a0.get('k') == 'StringLiteral' else ('global:%s' % a0.get('n') if a0.get('k') == 'DeclRefExpr' else a0.get('k')))
+                sites[name] = (tuple(sig), f, x['l'])
+    ctx.floor('R15.6 duplicate filters', len(sites), 3)
+    ref = sites['CppCheck::CppCheckLogger::reportErr'][0]
+    for name, (sig, f, line) in sites.items():
+        ok = sig == ref
+        ctx.ob('R15.6', 'dedup-key:%s' % name, ok, ('%s renders the key with %s' % (name, list(sig))) if ok else
+               ('%s keys its duplicate filter on toString(%s) while the per-file filter of CppCheckLogger::reportErr uses toString(%s): findings that differ only in what one '
+                'rendering omits (secondary locations, columns ...) are dropped with several jobs and kept with one job, or the other way round' % (name, ', '.join(sig), ', '.join(ref))),
+               '%s:%s' % (f['file'], line))
